@@ -187,8 +187,33 @@ def exotic_case(a):
     return out
 
 
+def shift_cases():
+    """[(label, expected, observed)] one history: (message, tag) pairs whose concatenations coincide, and
+    (message, tag, length) triples that agree in two of three, one after the other"""
+    Hm = importlib.import_module("py_ecc.bls.hash")
+    H2 = importlib.import_module("py_ecc.bls.hash_to_curve")
+    T = b"QUUX-V01-CS02"
+    seq = [(b"abcdef", T, 32), (b"abc", b"def" + T, 32), (b"abcdef", T, 32), (b"", b"abcdef" + T, 32), (b"abcdef", T, 33),
+           (b"abcdef", T, 32), (b"abcde", b"f" + T, 32), (b"abcdef" + T, b"", 32), (b"", b"", 32), (b"\x00", b"", 32), (b"", b"\x00", 32)]
+    out = []
+    for i, (m_, d_, n) in enumerate(seq):
+        got = _call(Hm.expand_message_xmd, m_, d_, n, hashlib.sha256)
+        got = ("ok", bytes(got[1])) if got[0] == "ok" and isinstance(got[1], (bytes, bytearray)) else got
+        out.append(("xmd call %d" % i, ("ok", h2c.expand_message_xmd(m_, d_, n, "sha256")), got))
+        o = _call(H2.hash_to_field_FQ2, m_, 1 + i % 2, d_, hashlib.sha256)
+        o = ("ok", tuple(tuple(int(c) for c in e.coeffs) for e in o[1])) if o[0] == "ok" else o
+        out.append(("hash_to_field_FQ2 call %d" % i, ("ok", h2c.hash_to_field(m_, 1 + i % 2, d_, 2, "sha256")), o))
+    return out
+
+
 def task_exotic(a, env):
     r = R("expand_message_xmd:parametrised-hashes-and-buffer-types")
+    for i, (lbl, exp, got) in enumerate(shift_cases()):
+        r.ev += 1
+        r.dk.add(("shift", i))
+        if exp != got:
+            r.viol("C15:%s:argument-boundary-shift" % lbl.split(" ")[0], ME + ":replay_shift", {}, exp, got, note=lbl)
+            break
     for (lm, ld, n) in ((3, 5, 40), (0, 0, 1), (16, 43, 100), (64, 255, 33), (1, 1, 0), (8, 8, 256)):
         c = {"lm": lm, "ld": ld, "n": n}
         for lbl, exp, got in exotic_case(c):
@@ -283,6 +308,13 @@ def task_helpers(a, env):
 def replay_helpers(a):
     lbl, exp, got = helper_cases()[a["i"]]
     return None if exp == got else {"case": lbl, "expected": exp, "observed": got}
+
+
+def replay_shift(a):
+    for lbl, exp, got in shift_cases():
+        if exp != got:
+            return {"case": lbl, "expected": exp, "observed": got}
+    return None
 
 
 def replay_exotic(a):
